@@ -1,9 +1,9 @@
 (* Extraction of the Thread messaging LTS for the correspondence run (ExtrOcamlBasic only). *)
 From Coq Require Import ExtrOcamlBasic NArith.
 From Coq Require Extraction.
-From Muscle Require Import Gen.Consts Conc.ThreadQ.
+From Muscle Require Import Conc.ThreadQ Conc.ThreadQConsts.
 
 (* sizeof(bytes) in Thread::WaitForNextMessageAux, regenerated from /repo on every run *)
-Definition absorb_const : nat := N.to_nat c_thread_signal_absorb_size.
+Definition absorb_const : nat := ABS.
 
 Extraction "threadq_model.ml" sys_step sys0 is_dp absorb_const s_g s_l ch.
